@@ -1,6 +1,6 @@
 """C02 Detailed placement keeps the placement legal at every exposed state."""
 import tracecheck
-from checks.common import run_plan, first, all_of, moved
+from checks.common import run_plan, first, all_of, moved, model_replay_validate
 
 LEVEL = "model_checking"
 
@@ -24,6 +24,8 @@ def run(chk):
         dict(flavour="asan-ubsan", scen="det", runs=(1200, 30000), opts={"cb": 1, "varyScale": 1}),
         dict(flavour="rel", scen="det", runs=(800, 20000), opts={"cb": 2, "varyScale": 1, "maxMovable": 16}),
     ]
+    model_replay_validate(chk, "DetailedRows", "DetailedRows_legal_" + chk.tier, "row lists of detailed placement: every feasible swap/insert sequence (legal scope)", ("C02",))
+    model_replay_validate(chk, "DetailedRows", "DetailedRows_orient_" + chk.tier, "row lists of detailed placement: every feasible swap/insert sequence (orient scope)", ("C02",))
     run_plan(chk, "C02", plan, nontrivial)
     chk.cov["rule"] = ("placeDetailed executions (with a legalize-only reference run on a copy) on seeded random circuits of the C01 domain "
                        "with random accepted parameter sets incl. reordering and wide windows; every Detailed callback and the return are "
